@@ -108,8 +108,9 @@ theorem instant_counts {t : List Char} {st : Stamp} (h : parseCanon t = some st)
 
 /-! ### normalisation -/
 
-/-- `str.strip` -/
-theorem strip_stripped (s : List Char) : Stripped s (strip s) := strip_spec s
+/-- `str.strip`: `strip s` is THE string obtained by removing leading and trailing white space -/
+theorem strip_stripped (s t : List Char) : Stripped s t ↔ t = strip s :=
+  ⟨stripped_unique, fun h => h ▸ strip_spec s⟩
 
 /-- **fix_canonical**: an accepted date is returned as `YYYY-MM-DD hh:mm+ZZzz` denoting an existing calendar instant -/
 theorem fix_canonical {s : List Char} {hint : Option (List Char)} {t : List Char} (h : fix s hint = .ok t) :
